@@ -135,8 +135,8 @@ Definition st_dist (p : list instr) (o : N * N) (g : gst) (l : tstate) : nat :=
   if st_final g then to_ret p o 100 g l else to_final p o 100 g l.
 
 (* bounds: B own steps of the (potential) owner end the run; K own steps after that return *)
-Definition ST_B : nat := 40.
-Definition ST_K : nat := 24.
+Definition ST_B : nat := 48.
+Definition ST_K : nat := 32.
 
 Definition st_PL (p : list instr) (is : N) (entry : nat) (o : N * N) : list (gst * tstate) :=
   tm_iter gst tstate gst_eqb tstate_eqb (tstep p o) own st_hot 400 [(g0 is, t0 entry)].
